@@ -210,6 +210,19 @@ func (p *Program) LookupFunc(spec string) (*types.Func, error) {
 
 // Func resolves spec to its SSA function (with body).
 func (p *Program) Func(spec string) (*ssa.Function, error) {
+	if i := strings.LastIndex(spec, "$"); i > 0 {
+		// anonymous function N of a named function: parent$N
+		par, err := p.Func(spec[:i])
+		if err != nil {
+			return nil, err
+		}
+		n := 0
+		fmt.Sscanf(spec[i+1:], "%d", &n)
+		if n < 1 || n > len(par.AnonFuncs) {
+			return nil, fmt.Errorf("anchor %s: no such anonymous function", spec)
+		}
+		return par.AnonFuncs[n-1], nil
+	}
 	tf, err := p.LookupFunc(spec)
 	if err != nil {
 		return nil, err
